@@ -3,22 +3,22 @@ usage: seed_prompt.py <new id e.g. G03> <property id> > prompt.txt"""
 import json, sys, os
 HERE = os.path.dirname(os.path.dirname(os.path.abspath(__file__)))
 PREV = {
- "C01": "purge removing closed chunks with retain/filter instead of a prefix; truncate_after(None) not resetting `last`; RaftLogState::purge not raising `last` when it is None; truncate's purged-boundary test moved into get_log_id with the wrong index; check_vote accepting incomparable votes; TruncateAfter replay returning early when nothing is removed",
- "C02": "purge removing closed chunks with retain/filter; open() removing a newest chunk that holds only its head record; TruncateAfter replay skipping split_off when the index is absent; open() rotating a full re-opened chunk with a stale head snapshot; the post-restart eviction boundary computed as a maximum over closed chunks; the record scan bounded by min(file size, read_buffer_size)",
- "C03": "a flush with nothing pending skipping fdatasync; open() not restoring the cache eviction boundary when it re-opens the previous chunk; the chunk-gap check in open() run only after a truncated chunk; open() removing a newest chunk that holds only its head record; purge popping chunks before the purge record is journalled; rotation writing the old chunk's pending tail from the caller thread",
- "C04": "a flush with nothing pending acknowledging on the caller thread; the worker skipping fdatasync when sync_id equals the flush offset; send_flush using try_send (WouldBlock on a full channel); the worker writing a batch with one write_vectored call; the worker forgetting tracked files on AppendFile; callbacks of one batch fired in reverse order",
- "C05": "purged chunk files unlinked newest-first; record-less newest file removed only when its length is 0; purge selecting chunks with retain (filter) instead of take-while; the payload decode error re-wrapped as InvalidData; chunk files created as .tmp and renamed; a torn tail longer than 64 KiB never truncated",
- "C06": "validate skipping the id-order check for the consecutive index; truncate accepting index <= next(purged); append_and_apply rotating a full open chunk before validating; check_vote rewritten with `<` (partial order); check_commit comparing with min(committed, last); pre-journal validation skipped for appends when the index map is empty",
- "C07": "the eviction boundary not moving backwards; the dump snapshot sharing the live cache; eviction comparing log indexes instead of log ids; PayloadCache::insert returning early when max_items is 0; read() using try_read on the cache lock; snapshot iteration removing payloads from the snapshot's cache copy",
- "C08": "purge comparing indexes instead of log ids; batches without data bytes skipping the sync; purge popping obsolete chunks before journalling the purge record; purge selecting chunks with retain; postponed removals executed after the batch-ending request; a closed chunk whose last is None never selected by purge",
- "C09": "the gap check moved below the removal of a record-less newest file; positional read of a closed chunk skipping the checksum; open() forgiving a gap in front of a head-only newest chunk; any decode error in a chunk's head record treated as incomplete; the trailing-zero scan reading 0 bytes on a 1 KiB boundary; a short read marking EOF so later decode errors become UnexpectedEof",
- "C10": "record-less newest file removed only if it was truncated; EOF with truncation disabled returning Ok(false); open() not restoring the eviction boundary when re-opening the previous chunk; verify_trailing_zeros comparing a global offset with the file size; a non-EOF error before the first record returned without the zero scan; record body decode errors re-wrapped as InvalidData",
- "C11": "on_disk_size falling back to 0; append returning wal.last_segment() after the loop; purge selecting chunks with retain (filter); is_open_chunk_full using == for the record count; commit of the already committed id returning early; a configured chunk limit of 0 treated as unset",
- "C12": "the decoder limiting a record to 1 MiB; the State record accepting version byte 0; the encoder using a thread-local buffer cleared only after success; the encoder under-reporting the size of TruncateAfter(None); State decode defaulting last to purged; the record type narrowed to u8 in the decoder",
- "C13": "Drop unlinking the LOCK file before unlocking; open() listing the directory before taking the lock; Drop not joining the worker while panicking; Dump::new taking no lock when the LOCK file does not exist; the worker holding a try_clone of the lock file; Dump taking the lock in shared mode",
- "C14": "removals on a detached helper thread; the lock field moved before the wal field (drop order); Drop not joining the worker while panicking; Drop waiting for the worker at most 2 seconds; the worker discarding queued requests once drop has started; every worker request sent with try_send",
- "C15": "truncate(0) clearing the map but not the byte counter; drain_evictable returning early when nothing is pinned; eviction deferred during a batch append with the flag not reset on error; the eviction loop stopping after 64 evictions per insert; insert of a 0-byte payload skipping eviction; read() refilling the cache on a miss without holding the lock across check and insert",
- "C16": "read raising `from` past the inverted-range guard; purge computing next_log_index(None) - 1; the index-limit check skipped when the id is not above last; a diagnostic in truncate computing next_log_index(committed); check_append subtracting indexes; check_vote reaching unreachable!() for incomparable votes",
+ "C01": "purge removing closed chunks with retain/filter instead of a prefix; truncate_after(None) not resetting `last`; RaftLogState::purge not raising `last` when it is None; truncate's purged-boundary test moved into get_log_id with the wrong index; check_vote accepting incomparable votes; TruncateAfter replay returning early when nothing is removed; the index map trimmed by popping entries (TruncateAfter(None) keeping index 0)",
+ "C02": "purge removing closed chunks with retain/filter; open() removing a newest chunk that holds only its head record; TruncateAfter replay skipping split_off when the index is absent; open() rotating a full re-opened chunk with a stale head snapshot; the post-restart eviction boundary computed as a maximum over closed chunks; the record scan bounded by min(file size, read_buffer_size); Chunk::open pre-allocating chunk_max_records() offsets",
+ "C03": "a flush with nothing pending skipping fdatasync; open() not restoring the cache eviction boundary when it re-opens the previous chunk; the chunk-gap check in open() run only after a truncated chunk; open() removing a newest chunk that holds only its head record; purge popping chunks before the purge record is journalled; rotation writing the old chunk's pending tail from the caller thread; a flush without a callback not asking for a sync",
+ "C04": "a flush with nothing pending acknowledging on the caller thread; the worker skipping fdatasync when sync_id equals the flush offset; send_flush using try_send (WouldBlock on a full channel); the worker writing a batch with one write_vectored call; the worker forgetting tracked files on AppendFile; callbacks of one batch fired in reverse order; rotation taking the pending bytes before creating the next file",
+ "C05": "purged chunk files unlinked newest-first; record-less newest file removed only when its length is 0; purge selecting chunks with retain (filter) instead of take-while; the payload decode error re-wrapped as InvalidData; chunk files created as .tmp and renamed; a torn tail longer than 64 KiB never truncated; a pid written into the LOCK file",
+ "C06": "validate skipping the id-order check for the consecutive index; truncate accepting index <= next(purged); append_and_apply rotating a full open chunk before validating; check_vote rewritten with `<` (partial order); check_commit comparing with min(committed, last); pre-journal validation skipped for appends when the index map is empty; votes and commits skipping the pre-journal validation",
+ "C07": "the eviction boundary not moving backwards; the dump snapshot sharing the live cache; eviction comparing log indexes instead of log ids; PayloadCache::insert returning early when max_items is 0; read() using try_read on the cache lock; snapshot iteration removing payloads from the snapshot's cache copy; open() not restoring the eviction boundary when the newest chunk is discarded",
+ "C08": "purge comparing indexes instead of log ids; batches without data bytes skipping the sync; purge popping obsolete chunks before journalling the purge record; purge selecting chunks with retain; postponed removals executed after the batch-ending request; a closed chunk whose last is None never selected by purge; flush(None) with nothing pending sending nothing and keeping the removals",
+ "C09": "the gap check moved below the removal of a record-less newest file; positional read of a closed chunk skipping the checksum; open() forgiving a gap in front of a head-only newest chunk; any decode error in a chunk's head record treated as incomplete; the trailing-zero scan reading 0 bytes on a 1 KiB boundary; a short read marking EOF so later decode errors become UnexpectedEof; global_end() computed from last_segment()",
+ "C10": "record-less newest file removed only if it was truncated; EOF with truncation disabled returning Ok(false); open() not restoring the eviction boundary when re-opening the previous chunk; verify_trailing_zeros comparing a global offset with the file size; a non-EOF error before the first record returned without the zero scan; record body decode errors re-wrapped as InvalidData; files shorter than 12 bytes bypassing the truncation setting",
+ "C11": "on_disk_size falling back to 0; append returning wal.last_segment() after the loop; purge selecting chunks with retain (filter); is_open_chunk_full using == for the record count; commit of the already committed id returning early; a configured chunk limit of 0 treated as unset; the open chunk's size counted from 0 after a reopen",
+ "C12": "the decoder limiting a record to 1 MiB; the State record accepting version byte 0; the encoder using a thread-local buffer cleared only after success; the encoder under-reporting the size of TruncateAfter(None); State decode defaulting last to purged; the record type narrowed to u8 in the decoder; undecodable user_data in a State record decoded as None",
+ "C13": "Drop unlinking the LOCK file before unlocking; open() listing the directory before taking the lock; Drop not joining the worker while panicking; Dump::new taking no lock when the LOCK file does not exist; the worker holding a try_clone of the lock file; Dump taking the lock in shared mode; a process-wide registry of held directories leaking an entry on a refused attempt",
+ "C14": "removals on a detached helper thread; the lock field moved before the wal field (drop order); Drop not joining the worker while panicking; Drop waiting for the worker at most 2 seconds; the worker discarding queued requests once drop has started; every worker request sent with try_send; purge using retain so that a middle chunk is unlinked",
+ "C15": "truncate(0) clearing the map but not the byte counter; drain_evictable returning early when nothing is pinned; eviction deferred during a batch append with the flag not reset on error; the eviction loop stopping after 64 evictions per insert; insert of a 0-byte payload skipping eviction; read() refilling the cache on a miss without holding the lock across check and insert; stat() evicting after it built its answer",
+ "C16": "read raising `from` past the inverted-range guard; purge computing next_log_index(None) - 1; the index-limit check skipped when the id is not above last; a diagnostic in truncate computing next_log_index(committed); check_append subtracting indexes; check_vote reaching unreachable!() for incomparable votes; a shared cache-miss reader indexing chunks[&id]",
 }
 new, pid = sys.argv[1], sys.argv[2]
 focus = sys.argv[3] if len(sys.argv) > 3 else None
